@@ -20,6 +20,8 @@ def take(inp, idx, scale=Fraction(1)):
     elif "sts" in inp:
         out["sts"] = None
     out["comps"] = [{k: ([v[i] for i in idx] if isinstance(v, list) else v) for k, v in ci.items()} for ci in inp["comps"]]
+    if inp.get("matrix_api"):
+        out["matrix_api"] = True
     return out
 
 
@@ -32,10 +34,10 @@ class P(Prop):
     RULE = ("electric plants (1-3 switchboards with breaker and status changes inside the series, numeric 0/1 breaker status "
             "arrays in half of the cases) and mechanical plants, series of 2-6 steps with irregular intervals: the whole run on one "
             "object; every two-way split, the single steps, a permutation of the steps and a rescaling of the intervals on FRESH "
-            "objects. Coq combines the implementation's results of the two parts / of the single steps as consecutive periods "
+            "objects, and the parts once more one after the other on ONE object. Coq combines the implementation's results of the two parts / of the single steps as consecutive periods "
             "and compares with the whole; the oracle checks split, single-point, permutation, scaling and duration laws on the "
             "implementation. Non-trivial = series with a breaker or status change")
-    QUICK_N = 50
+    QUICK_N = 70
     THOROUGH_N = 1500
     SHARD = 10
 
@@ -62,6 +64,20 @@ class P(Prop):
                         c["cancelling_storage_series"] = True
                         break
             c["split"] = rng.randint(1, n - 1)
+            # a periodic breaker schedule (two configurations A and B alternating, held for irregular numbers of steps), cut at
+            # a period boundary: both parts run through the same sequence of configurations at different steps
+            if kind == "electric" and c["plant"]["breakers"] and n >= 4 and rng.random() < 0.4:
+                nb = len(c["plant"]["breakers"])
+                A = [rng.random() < 0.7 for _ in range(nb)]
+                B = list(A)
+                B[rng.randrange(nb)] ^= True
+                cutpoints = sorted(rng.sample(range(1, n), 3))
+                c["inp"]["sts"] = [list(A if (sum(t >= x for x in cutpoints) % 2 == 0) else B) for t in range(n)]
+                c["split"] = cutpoints[1]
+                c["periodic_breaker_schedule"] = True
+            # statuses and sharing modes (also) through the per-switchboard [N x n] matrix setters
+            if kind == "electric" and rng.random() < 0.3:
+                c["matrix_api"] = True
             perm = list(range(n))
             rng.shuffle(perm)
             c["perm"] = perm
@@ -89,10 +105,32 @@ class P(Prop):
             _, _, res = sysrun.run_mechanical(plant, inp)
         return sysrun.snap(res)
 
+    def one_on(self, holder, case, inp):
+        """the same calculation on ONE plant object kept in `holder` (a voyage calculated part after part)"""
+        import plantgen as pg
+        from feems.components_model.utility import IntegrationMethod
+        plant = case["plant"]
+        if "sys" not in holder:
+            holder["sys"] = pg.build_electric_system(plant) if case["kind"] == "electric" else pg.build_mechanical_system(plant)
+        sysm, objs = holder["sys"]
+        with np.errstate(all="ignore"):
+            if case["kind"] == "electric":
+                pg.apply_electric_inputs(sysm, objs, plant, inp)
+                if case["numeric_breaker_status"] and inp.get("sts") is not None:
+                    sysm.set_bus_tie_status_all(np.array(inp["sts"], dtype=float).reshape(inp["n"], len(plant["breakers"])))
+                sysm.do_power_balance_calculation()
+            else:
+                pg.apply_mechanical_inputs(sysm, objs, plant, inp)
+                sysm.set_time_interval(np.array([float(x) for x in inp["dt"]]), IntegrationMethod.sum_with_time)
+                sysm.do_power_balance()
+            return sysrun.snap(sysm.get_fuel_energy_consumption_running_time())
+
     def run(self, case):
         import math
         from feems.exceptions import InputError
         inp, n, k = case["inp"], case["inp"]["n"], case["split"]
+        if case.get("matrix_api"):
+            inp = {**inp, "matrix_api": True}
         try:
             whole = self.one(case, inp)
             flat = whole["scalars"] + whole["co2"] + [m for _, m in whole["fuel"]]
@@ -100,11 +138,16 @@ class P(Prop):
                 return {"rejected": "non-finite: a bus without balancing capacity"}
             parts = [self.one(case, take(inp, list(range(0, k)))), self.one(case, take(inp, list(range(k, n))))]
             steps = [self.one(case, take(inp, [t])) for t in range(n)]
+            # the two parts, and then the second part cut once more, calculated one after the other on ONE plant object
+            holder = {}
+            k2 = k + max(1, (n - k) // 2)
+            cuts = [list(range(0, k)), list(range(k, n))] + ([list(range(k, k2)), list(range(k2, n))] if k2 < n else [])
+            reused = [self.one_on(holder, case, take(inp, c)) for c in cuts]
             perm = self.one(case, take(inp, case["perm"]))
             scaled = self.one(case, take(inp, list(range(n)), case["scale"]))
         except (InputError, ValueError, StopIteration) as e:
             return {"rejected": type(e).__name__ + ": " + str(e)[:80]}
-        return {"whole": whole, "parts": parts, "steps": steps, "perm": perm, "scaled": scaled}
+        return {"whole": whole, "parts": parts, "steps": steps, "perm": perm, "scaled": scaled, "reused": reused}
 
     def term(self, case, obs):
         if "rejected" in obs:
@@ -126,7 +169,12 @@ class P(Prop):
         if "rejected" in obs:
             return None
         W = sysrun.figures(obs["whole"])
-        for name, parts in (("two consecutive parts", obs["parts"]), ("single operating points", obs["steps"])):
+        groups = [("two consecutive parts", obs["parts"]), ("single operating points", obs["steps"])]
+        if obs.get("reused"):
+            groups.append(("two consecutive parts calculated one after the other on one plant object", obs["reused"][:2]))
+            if len(obs["reused"]) == 4:
+                groups.append(("three consecutive parts calculated one after the other on one plant object", [obs["reused"][0]] + obs["reused"][2:]))
+        for name, parts in groups:
             S = self.add(parts)
             for k in sorted(set(W) | set(S)):
                 x, y = W.get(k) or 0.0, S.get(k, 0.0)
@@ -159,6 +207,10 @@ class P(Prop):
             t.append("rejected:" + obs["rejected"].split(":")[0])
         if case.get("cancelling_storage_series"):
             t.append("storage-charged-and-discharged-with-equal-power")
+        if case.get("periodic_breaker_schedule"):
+            t.append("periodic-breaker-schedule-cut-at-a-period-boundary")
+        if case.get("matrix_api"):
+            t.append("statuses-through-matrix-setters")
         if inp.get("sts") and any(inp["sts"][i] != inp["sts"][i - 1] for i in range(1, inp["n"])):
             t.append("breaker-change-in-series")
             ch = [i for i in range(1, inp["n"]) if inp["sts"][i] != inp["sts"][i - 1]]
